@@ -277,8 +277,12 @@ func tabulaStack() []string {
 	return out
 }
 
+// hotLoop: a loop head that was passed this often counts as "hot". No loop of tabula comes near it
+// on the valid bases outside the byte-level scanners, which are innermost frames.
+const hotLoop = 256
+
 // loopingFunction attributes a blown step budget: the OUTERMOST function on the stack that owns a
-// hot loop head (>= 1/50 of the budget). The innermost frame at the moment the counter runs out is
+// hot loop head. The innermost frame at the moment the counter runs out is
 // arbitrary, and the most-ticked site is usually a leaf helper; the function whose loop does not
 // terminate is on the stack at every moment. Falls back to the hottest loop head of all.
 func loopingFunction(stack []string) string {
@@ -289,7 +293,7 @@ func loopingFunction(stack []string) string {
 		if !strings.HasSuffix(name, ":loop") {
 			continue
 		}
-		if v*50 >= verifrt.TickBudget {
+		if v >= hotLoop {
 			hot[normSite(name)] = true
 		}
 		if v > best {
@@ -537,20 +541,27 @@ func rolesTouched(bi *baseInfo, eds []edit) map[string]bool {
 func (r *runner) entriesFor(bi *baseInfo, eds []edit, level string) []entry {
 	var out []entry
 	b := bi.b
+	th := r.e.Thorough()
 	switch {
 	case b.kind == "pdf" && level == "full":
 		out = append(out, docEntries...)
 		out = append(out, pdfOnlyEntries...)
-	case b.kind == "pdf" && level == "reduced":
-		out = append(out, eText, eMarkdown, eChunks, ePageCount)
-	case b.kind == "pdf" && level == "pair":
-		out = append(out, eText, eChunks, ePageCount)
 	case level == "full":
 		out = append(out, docEntries...)
-	case level == "reduced":
+	case level == "reduced" && th:
 		out = append(out, eText, eMarkdown, eChunks, ePageCount)
-	case level == "pair":
+	case level == "pair" && th:
 		out = append(out, eText, eChunks, ePageCount)
+	// quick tier. PDF: Chunks() is a strict prefix of ToMarkdown()'s execution; other formats: every
+	// entry point re-parses the container, Text and Chunks are the two disjoint paths behind it.
+	case b.kind == "pdf" && level == "reduced":
+		out = append(out, eText, eMarkdown, ePageCount)
+	case b.kind == "pdf" && level == "pair":
+		out = append(out, eText, ePageCount)
+	case level == "reduced":
+		out = append(out, eText, eChunks)
+	case level == "pair":
+		out = append(out, eText)
 	}
 	if b.kind == "html" {
 		if level == "full" {
@@ -727,7 +738,7 @@ func run(e *harness.Env) {
 		os.Exit(2)
 	}
 	debug.SetMaxStack(512 << 20)
-	e.Rule = ruleText
+	e.Rule = ruleText(e.Thorough())
 	e.Assumptions = []string{
 		"the budget instrumentation (cmd/instr -budgets) preserves behaviour: the instrumented tree passes tabula's own test suite",
 		"a step counts one function entry or loop iteration inside tabula; loops inside the standard library are covered only by the 300 s per-case backstop and the 6 GiB address-space limit",
